@@ -50,6 +50,7 @@ Judge(c, s, e) ==
           IN Iabs(ISumI(terms)) <= bound
   IN Check(<< << Len(e.uvV) = nvs /\ Len(e.uvC) = D.nc /\ \A cc \in 0..(D.nc - 1) : e.uvC[cc + 1] = uv(Cn(D, cc).v), "per_vertex_and_per_corner_outputs_agree" >>,
               << borderOk, "border_vertices_in_border_order_at_distinct_positions_on_the_convex_shape" >>,
+              << e.honoured = 1, "custom_boundary_rows_are_the_positions_of_the_boundary_vertices" >>,
               << ~wAvail \/ meanOk, "interior_vertices_at_the_weighted_average_of_their_neighbours" >>,
               << (e.cotan = 1 /\ (~wAvail \/ ~wNonNeg)) \/ (\E f \in 1..D.nf : onSide(f))
                  \/ (\A f \in 1..D.nf : e.sg[f] = e.sg[1] /\ e.sg[f] # 0), "every_triangle_has_the_same_strict_orientation" >> >>,
